@@ -96,6 +96,15 @@ Definition helper_model (c : list tclass * list nat * list (str * value) * cfgda
         for single in (True, False):
             out.append(dict(classes=[am, la, rp], vals={}, real=[2], by_class=False, drop_mock=True, single=single))
             out.append(dict(classes=[am, la, rp], vals={}, real=[2], by_class=True, drop_mock=True, single=single))
+        # inputs collected by a pattern whose members are mocked, all of them or some
+        qa = dict(K(0, 'PartA', params=[P('x')]), name='part_a')
+        qb = dict(K(1, 'PartB', params=[P('x')]), name='part_b')
+        qc = dict(K(2, 'Collect', meta_inputs=[{'name': '~part_.*'}]), name='collect')
+        # (the helper lists tested tasks before mocks: the collected order equals the real chain's for these two shapes; the
+        # order in which a pattern collects is not part of the computation, see DESIGN 12.4)
+        for real in ([2], [0, 2]):
+            for by_class in (True, False):
+                out.append(dict(classes=[qa, qb, qc], vals={'x': 1}, real=real, by_class=by_class, drop_mock=False, single=False))
         # a parameter read from another config key than its name, while a different task's parameter bears that name
         pa = dict(K(0, 'Alpha', params=[P('x')]), name='alpha')
         pb = dict(K(1, 'Beta', params=[P('x', cfg='beta_x', default=[5])], meta_inputs=[{'cls': 0}]), name='beta')
